@@ -755,6 +755,17 @@ pub fn meta(args: &Args) -> Report {
             idlists.push(l2);
         }
         idlists.push(vec![b"foo".to_vec(), b"foobar".to_vec(), b"quux".to_vec(), b"bard".to_vec(), b"zap".to_vec(), b"lorem".to_vec()]);
+        // 21..64 patterns of mixed lengths with duplicated strings (a duplicate is reported under the
+        // identifier of its first position, whatever confirms the match)
+        idlists.extend(crate::packedc::lists(false, seed).into_iter().filter(|l| l.len() >= 21 && l.len() <= 64 && l.iter().all(|p| p.len() >= 2)).take(16));
+        {
+            let words: Vec<&[u8]> = vec![b"apple", b"banana", b"cherry", b"date", b"elderberry", b"fig", b"grape", b"lemon", b"mango", b"nectarine", b"orange", b"papaya", b"quince", b"raspberry"];
+            let mut l: Vec<Vec<u8>> = vec![];
+            for i in 0..28usize {
+                l.push(words[(i * 5) % words.len()].to_vec());
+            }
+            idlists.push(l);
+        }
         par_for(&idlists, |pats| {
             for mk in [Kind::LF, Kind::LL, Kind::Std] {
                 for kind in [None, Some(AhoCorasickKind::NoncontiguousNFA), Some(AhoCorasickKind::ContiguousNFA), Some(AhoCorasickKind::DFA)] {
@@ -773,10 +784,10 @@ pub fn meta(args: &Args) -> Report {
                         Err(_) => continue,
                     };
                     for m in &got {
-                        if m.pid >= pats.len() || hay[m.start..m.end] != pats[m.pid][..] {
+                        if m.pid >= pats.len() || hay[m.start..m.end] != pats[m.pid][..] || pats.iter().position(|p| *p == pats[m.pid]) != Some(m.pid) {
                             rep.fail(Fail {
                                 key: format!("meta:ids:{}:{}", mk.name(), show_pats(&pats[..pats.len().min(4)])),
-                                what: format!("pattern identifiers in matches are not input positions: {} (kind {}, {:?}) on '{}' reports pattern {} at {}..{}, whose bytes are '{}'", show_pats(pats), mk.name(), kind, show(&hay), m.pid, m.start, m.end, show(&hay[m.start..m.end])),
+                                what: format!("pattern identifiers in matches are not input positions (of the first of identical patterns): {} (kind {}, {:?}) reports pattern {} at {}..{}, whose bytes are '{}' (first supplied at position {:?})", show_pats(&pats[..pats.len().min(30)]), mk.name(), kind, m.pid, m.start, m.end, show(&hay[m.start..m.end]), pats.iter().position(|p| p[..] == hay[m.start..m.end])),
                                 argv: vec!["meta".into()],
                             });
                             break;
